@@ -174,8 +174,17 @@ let all_solutions (store : z list list) (props : prop list) : int list list =
   go 0; List.rev !out
 
 let known_class (line : string) : string =
-  let has w = List.exists (fun p -> match words p with k :: _ -> k = w | [] -> false) (String.split_on_char ';' line) in
-  if has "neq" then "BAD:neq_noop " else ""
+  let specs = List.map words (String.split_on_char ';' line) in
+  let has w = List.exists (fun p -> match p with k :: _ -> k = w | [] -> false) specs in
+  (* D11: IntLinEq/IntLinLe (also reached from the reified forms) never test 0 = c / 0 <= c when
+     every coefficient paired with a variable is zero *)
+  let zero_lin = List.exists (fun p -> match p with
+      | k :: cs :: xs :: _ when List.mem k ["lineq"; "linle"; "lineqr"; "linler"; "linner"] ->
+        all_zero (zl cs) (var_list xs)
+      | _ -> false) specs in
+  if has "neq" then "BAD:neq_noop "
+  else if zero_lin then "BAD:lin_zero_coeffs "
+  else ""
 
 let fmt_isols (l : int list list) = if l = [] then "-" else String.concat " " (List.map (fun s -> String.concat "," (List.map string_of_int s)) l)
 
